@@ -80,7 +80,14 @@ def unit(rng, target, n):
             ('enum xH { xHM = (-9223372036854775807ll - 1), xHN = 9223372036854775807ll }; long long xha[] = { xHM, xHN, sizeof(enum xH) };', ['xha'], le(-(1 << 63), m.LLONG) + le((1 << 63) - 1, m.LLONG) + le(8, m.LLONG)),
             ('_Static_assert(0x100000000, ""); _Static_assert(1ull << 40, ""); _Static_assert(-0x7fffffff00000000ll, ""); _Static_assert(0x8000000000000000u, ""); _Static_assert(sizeof(char[3][65536][65536]), ""); long long xsa = 1;', ['xsa'], le(1, m.LLONG)),
             ('long long xdv[] = { 5ull % 18446744073709551615ull, 18446744073709551615ull / 18446744073709551615ull, 7ul / -1ul, 7ul % ~0ul, -8ll / -1ll, -8ll % -1ll };', ['xdv'],
-             le(5, m.LLONG) + le(1, m.LLONG) + le(0, m.LLONG) + le(7, m.LLONG) + le(8, m.LLONG) + le(0, m.LLONG))]):
+             le(5, m.LLONG) + le(1, m.LLONG) + le(0, m.LLONG) + le(7, m.LLONG) + le(8, m.LLONG) + le(0, m.LLONG)),
+            # 64-bit integers beside the midpoint of two floats or doubles: one rounding, straight to the target type (the references decide)
+            ('float xfc[] = { (float)0x100000100000001, (float)0x20000000000001, (float)0xfffffffffffffbff, (float)0x8000000000000400, (float)16777217, (float)-16777217, (float)9007199254740993, '
+             '(float)0xffffff7fffffffff, (float)-0x100000100000001ll, 0x100000100000001, 0x7fffffbfffffffff, -0x7fffffbfffffffff, 0x4000001fffffffff };', ['xfc'], None),
+            ('double xdc[] = { (double)0xfffffffffffffbff, (double)0x8000000000000400, (double)9007199254740993, (double)0xfffffffffffffc00, (double)0x7fffffffffffffff, (double)(float)0x100000100000001, '
+             '0x20000000000001, -0x20000000000001, 0xfffffffffffff7ff, 0xfffffffffffff800 };', ['xdc'], None),
+            ('long long xic[] = { (long long)(float)0x100000100000001 == 0x100000200000000, (int)(float)16777217, sizeof(char[(int)(float)16777217 - 16777214]), (long long)(float)0x7fffff4000000001, '
+             '(unsigned long long)(float)0xffffff7fffffffff, (long long)(double)0x20000000000001 - 0x20000000000000, (float)0x100000100000001 > 72057594037927936.0 };', ['xic'], None)]):
         decls.append(dataref.Decl('fx%d' % j, text, names, meta=(text[:60], 0, m.LLONG, 'fixed-boundary-form')))
         exp[names[0]] = expv
     return prefix, decls, exp, negs
